@@ -69,7 +69,9 @@ func VerifC12_FindWorkflow() {
 			st.evks[dmh] = append(st.evks[dmh], junk)
 		}
 	}
-	c := &DHashClient{dhstoreAPI: st}
+	// through the public constructor: metadata-only mode over the model store
+	c, cerr := NewDHashClient(WithDHStoreAPI(st), WithMetadataOnly(true))
+	verif_Assume(cerr == nil && c != nil)
 	resp, ferr := c.Find(context.Background(), mh)
 	verif_Reach("found")
 	verif_Assert(ferr == nil && resp != nil, "the find succeeds")
